@@ -8,6 +8,8 @@ use self::chunks::read_chunks;
 use super::read_metadata;
 use crate::binning_index::index::reference_sequence::{Bin, Metadata, index::BinnedIndex};
 
+const MAX_PREALLOCATED_LEN: usize = 1 << 12;
+
 pub(super) async fn read_bins<R>(
     reader: &mut R,
     depth: u8,
@@ -28,8 +30,10 @@ where
         usize::try_from(n).map_err(|e| io::Error::new(io::ErrorKind::InvalidData, e))
     })?;
 
-    let mut bins = IndexMap::with_capacity(n_bin);
-    let mut index = BinnedIndex::with_capacity(n_bin);
+    // The count is read from the input and is not yet validated, i.e., only a limited capacity is
+    // preallocated, and the collection grows as entries are read.
+    let mut bins = IndexMap::with_capacity(n_bin.min(MAX_PREALLOCATED_LEN));
+    let mut index = BinnedIndex::with_capacity(n_bin.min(MAX_PREALLOCATED_LEN));
 
     let metadata_id = Bin::metadata_id(depth);
     let mut metadata = None;
